@@ -32,6 +32,60 @@ theorem transformRange_exact (s : Stats) (hg : s.gcd ≠ 0) (lo hi v : Nat)
     conv => lhs; rw [this]
     exact Nat.mul_le_mul_right_iff hgpos
 
+/-- with the guard, the rows reported for any query range are exactly the rows whose value lies
+in the range -/
+theorem rangeRows_guarded_exact (s : Stats) (hg : s.gcd ≠ 0) (vals : List Nat)
+    (hv : ∀ v ∈ vals, s.min ≤ v ∧ s.gcd ∣ v - s.min) (lo hi : Nat) :
+    rangeRowsWith true s (vals.map (fun v => (v - s.min) / s.gcd)) lo hi
+      = (List.range vals.length).filter (fun i => decide (lo ≤ vals.getD i 0) && decide (vals.getD i 0 ≤ hi)) := by
+  unfold rangeRowsWith transformRangeWith
+  by_cases h1 : lo > hi
+  · simp only [h1, if_true]
+    symm
+    apply List.filter_eq_nil_iff.mpr
+    intro i _
+    simp only [Bool.and_eq_true, decide_eq_true_eq]
+    omega
+  · simp only [h1, if_false, Bool.true_and]
+    by_cases h2 : hi < s.min
+    · simp only [h2, decide_true, if_true]
+      symm
+      apply List.filter_eq_nil_iff.mpr
+      intro i hi'
+      have hlt : i < vals.length := List.mem_range.mp hi'
+      have := (hv vals[i] (List.getElem_mem hlt)).1
+      simp only [Bool.and_eq_true, decide_eq_true_eq, List.getD_eq_getElem?_getD, List.getElem?_eq_getElem hlt, Option.getD_some]
+      omega
+    · simp only [h2, decide_false, Bool.false_eq_true, if_false, List.length_map]
+      apply List.filter_congr
+      intro i hi'
+      have hlt : i < vals.length := List.mem_range.mp hi'
+      have hvi := hv vals[i] (List.getElem_mem hlt)
+      have key := transformRange_exact s hg lo hi vals[i] hvi.1 hvi.2 (by omega)
+      simp only [List.getD_eq_getElem?_getD, List.getElem?_map, List.getElem?_eq_getElem hlt, Option.map_some,
+        Option.getD_some]
+      by_cases hc : lo ≤ vals[i] ∧ vals[i] ≤ hi
+      · have := key.mp hc
+        simp [hc.1, hc.2, this.1, this.2]
+      · have hn : ¬ ((transformRange s lo hi).1 ≤ (vals[i] - s.min) / s.gcd ∧ (vals[i] - s.min) / s.gcd ≤ (transformRange s lo hi).2) :=
+          fun h => hc (key.mpr h)
+        have e1 : (decide (lo ≤ vals[i]) && decide (vals[i] ≤ hi)) = false := by
+          simp only [Bool.and_eq_false_iff, decide_eq_false_iff_not]; omega
+        have e2 : (decide ((transformRange s lo hi).1 ≤ (vals[i] - s.min) / s.gcd) && decide ((vals[i] - s.min) / s.gcd ≤ (transformRange s lo hi).2)) = false := by
+          simp only [Bool.and_eq_false_iff, decide_eq_false_iff_not]
+          by_cases h : (transformRange s lo hi).1 ≤ (vals[i] - s.min) / s.gcd
+          · right; exact fun h' => hn ⟨h, h'⟩
+          · left; exact h
+        rw [e1, e2]
+
+theorem rangeRowsWith_guard_irrelevant (g : Bool) (s : Stats) (norm : List Nat) (lo hi : Nat)
+    (h : s.min ≤ hi ∨ lo > hi) : rangeRowsWith g s norm lo hi = rangeRowsWith true s norm lo hi := by
+  unfold rangeRowsWith transformRangeWith
+  by_cases h1 : lo > hi
+  · simp [h1]
+  · have h2 : ¬ hi < s.min := by omega
+    simp [h1, h2]
+
 /-! ## blockwise-linear: one block -/
 
 theorem foldl_max_widthOk (l : List Nat) (a : Nat) (ha : unpackerWidthOk a = true)
@@ -51,7 +105,7 @@ theorem foldl_max_widthOk (l : List Nat) (a : Nat) (ha : unpackerWidthOk a = tru
 theorem blockwise_block_exact (s : Stats) (_hg : s.gcd ≠ 0) (block : List Nat) (rest : Bytes)
     (hrest : ∀ b ∈ rest, b < 256)
     (hv : ∀ v ∈ block, s.min ≤ v ∧ v < 2 ^ 64 ∧ s.gcd ∣ v - s.min)
-    (hfull : 8 ∣ (bwBlockEnc s block).1.width * block.length)
+    (hfull : 8 ∣ (bwBlockEnc s block).1.width * block.length ∨ rest = [])
     (i : Nat) (hi : i < block.length) :
     s.min + (BitVec.ofNat 64 s.gcd * ((bwBlockEnc s block).1.line.eval i + BitVec.ofNat 64
         (unpackGet (bwBlockEnc s block).1.width i
@@ -83,8 +137,14 @@ theorem blockwise_block_exact (s : Stats) (_hg : s.gcd ≠ 0) (block : List Nat)
       rw [← hw]
       exact (foldl_max_ge (offs.map computeNumBits) 0).2 _ (List.mem_map.mpr ⟨_, List.getElem_mem hj, rfl⟩)
     exact Nat.lt_of_lt_of_le h1 (Nat.pow_le_pow_right (by decide) h2)
-  have hfull' : 8 ∣ w * offs.length := by rw [hol]; exact hfull
-  rw [unpackGet_append w hwok offs hbound rest hrest hfull' i (by omega), hoget i hi]
+  have hget : unpackGet w i (pack w offs ++ rest) = offs[i]'(by omega) := by
+    rcases hfull with hfull | hnil
+    · have hfull' : 8 ∣ w * offs.length := by rw [hol]; exact hfull
+      exact unpackGet_append w hwok offs hbound rest hrest hfull' i (by omega)
+    · subst hnil
+      rw [List.append_nil]
+      exact unpack_pack w hwok offs hbound i (by omega)
+  rw [hget, hoget i hi]
   rw [BitVec.ofNat_toNat, BitVec.setWidth_eq]
   have e : line.eval i + (BitVec.ofNat 64 (norm[i]'(by omega)) - line.eval i) = BitVec.ofNat 64 (norm[i]'(by omega)) := by
     bv_omega
